@@ -450,6 +450,10 @@ class Polyline:
         original vertices and the new indices of the inserted points.
         """
         segment_indices = np.asarray(segment_indices)
+        if segment_indices.size == 0:
+            # An empty plain list comes out of `np.asarray()` as float64, which
+            # cannot be used as an index.
+            segment_indices = segment_indices.astype(np.int64)
         vg.shape.check(locals(), "segment_indices", (-1,))
         geometric_midpoints = np.mean(self.segments[segment_indices], axis=1)
         return self.with_insertions(
